@@ -316,7 +316,8 @@ SUBS = [
 
 def scenario_cases(tier):
     for n in ('prefix-becomes-default', 'foreign-rule-with-undeclared-namespace', 'prefix-on-default-rule', 'del-behind-import',
-              'rebind-through-mapping'):
+              'rebind-through-mapping', 'bound-prefix-redeclared-with-used-uri', 'rule-text-rebinds-uri-to-bound-prefix',
+              'default-declared-after-unprefixed-selectors', 'detached-after-rebinding', 'uri-with-escaped-quote'):
         yield {'name': n}
 
 
@@ -372,6 +373,69 @@ def check_scenario(case, ctx):
                 raise Violation('ns:used-namespace-deleted', f'{s.cssText!r}')
             except xml.dom.DOMException:
                 pass
+        elif name == 'bound-prefix-redeclared-with-used-uri':
+            s = parse('@namespace p "b"; @namespace q "c"; q|x { left: 0 }')
+            cssutils.log.raiseExceptions = True
+            before = snapshot(s)
+            try:
+                s.add(css.CSSNamespaceRule(prefix='p', namespaceURI='c'))
+            except xml.dom.DOMException:
+                if snapshot(s) != before:
+                    raise Violation('scenario:rejected-namespace-insert-deleted-a-used-rule', f'{before[0]!r} -> {s.cssText!r}')
+                return
+            try:
+                check_sheet(s, {}, 'add p -> c', 'A')
+            except Violation as v:
+                raise Violation('scenario:rejected-namespace-insert-deleted-a-used-rule', v.msg)
+        elif name == 'rule-text-rebinds-uri-to-bound-prefix':
+            s = parse('@namespace p "a"; @namespace q "b"; p|x, q|y { left: 0 }')
+            cssutils.log.raiseExceptions = True
+            before = [pairs_of(r) for r in style_rules(s)]
+            try:
+                s.cssRules[0].cssText = '@namespace q "a";'
+            except xml.dom.DOMException:
+                return
+            prefixes = [r.prefix for r in ns_rules(s)]
+            cssutils.log.raiseExceptions = False
+            after = [pairs_of(r) for r in style_rules(parse(s.cssText))]
+            if len(set(prefixes)) != len(prefixes) or after != before:
+                raise Violation('scenario:namespace-rule-text-creates-duplicate-prefix', f'{s.cssText!r}: prefixes {prefixes}; selectors re-resolve to {after}, were {before}')
+        elif name == 'default-declared-after-unprefixed-selectors':
+            s = parse('a, * { left: 0 }')
+            cssutils.log.raiseExceptions = True
+            s.namespaces[''] = 'd'
+            cssutils.log.raiseExceptions = False
+            after = [pairs_of(r) for r in style_rules(parse(s.cssText))]
+            allowed = ([((('type-selector', 'd', 'a'),), (('universal', 'd', '*'),))], [((('type-selector', -1, 'a'),), (('universal', -1, '*'),))],
+                       [((('type-selector', None, 'a'),), (('universal', None, '*'),))])
+            if after not in allowed:
+                raise Violation('scenario:unprefixed-selectors-written-as-no-namespace', f'{s.cssText!r} re-resolves to {after}')
+        elif name == 'detached-after-rebinding':
+            s = parse('@namespace p "a"; p|x { left: 0 }')
+            cssutils.log.raiseExceptions = True
+            rule = style_rules(s)[0]
+            ns_rules(s)[0].prefix = 'q'
+            s.namespaces['p'] = 'b'
+            rule.selectorList.appendSelector('p|z')
+            want = pairs_of(rule)
+            s.deleteRule(rule)
+            t = css.CSSStyleSheet()
+            t.namespaces['p'] = 'b'
+            t.namespaces['q'] = 'a'
+            cssutils.log.raiseExceptions = False
+            try:
+                t.add(rule)
+            except xml.dom.DOMException:
+                return
+            got = [pairs_of(r) for r in style_rules(parse(t.cssText))]
+            if got != [want]:
+                raise Violation('scenario:detached-rule-keeps-stale-prefix-snapshot', f'{t.cssText!r} re-resolves to {got}, the rule meant {want}')
+        elif name == 'uri-with-escaped-quote':
+            cssutils.log.raiseExceptions = False
+            s = parse('@namespace p \'a\\"\'; p|x { left: 0 }')
+            re_ = parse(s.cssText)
+            if dict(re_.namespaces.items()) != dict(s.namespaces.items()) or len(style_rules(re_)) != len(style_rules(s)):
+                raise Violation('scenario:namespace-uri-with-escaped-quote', f'{s.cssText!r} reparses to namespaces {dict(re_.namespaces.items())}')
         elif name == 'rebind-through-mapping':
             s = parse('@namespace "%s"; @namespace p "%s"; a, p|b { top: 0 }' % (D, P))
             cssutils.log.raiseExceptions = True
